@@ -108,7 +108,7 @@ func seedOps(name string) []Op {
 		return []Op{{K: "create", A: "A", C: 10}, {K: "create", A: "B", C: 11}, tick}
 	case "big":
 		// 18-decimal-scale pools of both kinds; the alphabet adds all-asset joins and exits of an odd share amount
-		return []Op{{K: "create", A: "A", C: 12}, {K: "create", A: "B", C: 13}, tick}
+		return []Op{{K: "create", A: "A", C: 12}, {K: "create", A: "B", C: 13}, {K: "create", A: "A", C: 14}, tick}
 	case "bal4":
 		return []Op{{K: "create", A: "A", C: 8}, {K: "create", A: "B", C: 6}, tick}
 	case "bal8":
